@@ -82,14 +82,14 @@ Lemma pprf_flip_digest_rejected_lem : forall H sid cb rk ms j v r,
   eval_pprf H sid cb rk ms = Val r ->
   v <> p_s_tilda (nth j ms default_msg) ->
   eval_pprf H sid cb rk (upd j (set_s_tilda v (nth j ms default_msg)) ms) = Err err_invalid_proof.
-Proof. intros H sid cb rk ms j v r. apply flip_digest_gen. Qed.
+Proof. intros H sid cb rk ms j v r. exact (flip_digest_gen H sid Kdepth Ntrees cb rk ms j v r). Qed.
 
 Lemma pprf_flip_unused_side_lem : forall H sid cb rk ms j level (f : bytes -> bytes),
   S level < Kdepth ->
   eval_pprf H sid cb rk
     (upd j (map_t f level (negb (extract_bit cb (j * Kdepth + S level))) (nth j ms default_msg)) ms) =
   eval_pprf H sid cb rk ms.
-Proof. intros H sid cb rk ms j level f. apply flip_unused_gen. Qed.
+Proof. intros H sid cb rk ms j level f. exact (flip_unused_gen H sid Kdepth Ntrees cb rk ms j level f). Qed.
 
 (* ------------------------------------------------------------------ tampering characterised by collisions *)
 From SL Require Import Proofs.PprfTamper Proofs.PprfAdv.
